@@ -47,6 +47,30 @@ DECL = {
           '<xs:keyref name="R" refer="t:K"><xs:selector xpath="t:m"/><xs:field xpath="@p"/></xs:keyref>'
           '</xs:element>'),
 }
+# XSD 1.1 only, placed like dflt anywhere among the documents (not part of the abstract schema of Build.tla):
+# two types whose content is a reference to the SAME named group, in which an element declaration competes with a
+# wildcard (the element wins, whichever type is built first), and a wildcard that excludes every DEFINED global
+# element (wherever that element is declared)
+EXTRA11 = {
+    "gw": ('<xs:group name="gw"><xs:choice><xs:any namespace="##targetNamespace" processContents="skip"/>'
+           '<xs:element name="n" type="xs:int"/></xs:choice></xs:group>'),
+    "tW1": '<xs:complexType name="tW1"@DA@><xs:group ref="t:gw" minOccurs="0" maxOccurs="unbounded"/></xs:complexType>',
+    "tW2": '<xs:complexType name="tW2"@DA@><xs:group ref="t:gw" minOccurs="0" maxOccurs="unbounded"/></xs:complexType>',
+    "w1": '<xs:element name="w1" type="t:tW1"/>',
+    "w2": '<xs:element name="w2" type="t:tW2"/>',
+    "q": ('<xs:element name="q"><xs:complexType@DA@><xs:sequence><xs:any namespace="##targetNamespace" '
+          'notQName="##defined" processContents="skip"/></xs:sequence></xs:complexType></xs:element>'),
+}
+EXTRA_KIND = {"gw": "group", "tW1": "type", "tW2": "type", "w1": "element", "w2": "element", "q": "element"}
+PROBES11 = [
+    ('<t:w1 xmlns:t="urn:T"><t:n>5</t:n></t:w1>', True), ('<t:w1 xmlns:t="urn:T"><t:n>abc</t:n></t:w1>', False),
+    ('<t:w2 xmlns:t="urn:T"><t:n>5</t:n></t:w2>', True), ('<t:w2 xmlns:t="urn:T"><t:n>abc</t:n></t:w2>', False),
+    ('<t:w2 xmlns:t="urn:T"><t:other>abc</t:other></t:w2>', True),
+    ('<t:q xmlns:t="urn:T"><t:zz/></t:q>', True), ('<t:q xmlns:t="urn:T"><t:m/></t:q>', False),
+    ('<t:q xmlns:t="urn:T"><t:w1/></t:q>', False), ('<t:q xmlns:t="urn:T"><t:r/></t:q>', False),
+    ('<t:w1 xmlns:t="urn:T"><t:other/><t:n>5</t:n><t:n>abc</t:n></t:w1>', False),
+    ('<t:w2 xmlns:t="urn:T"><t:other/><t:n>5</t:n><t:n>7</t:n></t:w2>', True),
+]
 KIND = {"tB": "type", "tD": "type", "ag": "attribute_group", "dflt": "attribute_group", "g": "group", "e": "element",
         "m": "element", "r": "element"}
 PROBES = [
@@ -138,7 +162,7 @@ def spelling(kind, directory, fname):
 
 def decl(n, ver):
     """tD inherits the default attributes from tB: in XSD 1.1 it must not get them a second time."""
-    return DECL[n].replace("@DA@", ' defaultAttributesApply="false"' if ver == "1.1" else "")
+    return (DECL.get(n) or EXTRA11[n]).replace("@DA@", ' defaultAttributesApply="false"' if ver == "1.1" else "")
 
 
 def arrangement_case(job):
@@ -150,6 +174,10 @@ def arrangement_case(job):
     order.insert(idx % (len(order) + 1), "dflt")      # the default attribute group, anywhere among the others
     ndocs = 1 + idx % 3
     assign = {n: (idx // (3 ** k)) % ndocs for k, n in enumerate(sorted(DECL))}
+    extras = sorted(EXTRA11) if ver == "1.1" else []
+    for k, n in enumerate(extras):
+        order.insert((idx * (k + 3) + k) % (len(order) + 1), n)
+        assign[n] = (idx // (2 ** k) + k) % ndocs
     with tempfile.TemporaryDirectory(prefix="verif c09 ") as d:     # a space: percent-encoding matters
         os.mkdir(os.path.join(d, "sub"))
         incs = []
@@ -198,7 +226,7 @@ def arrangement_case(job):
         finally:
             vt.stop()
         trs.append(project_build_trace(ev))
-        want = sorted((KIND[n], "{%s}%s" % (TNS, n)) for n in DECL)
+        want = sorted([(KIND[n], "{%s}%s" % (TNS, n)) for n in DECL] + [(EXTRA_KIND[n], "{%s}%s" % (TNS, n)) for n in extras])
         variants = [("built", s)]
         try:
             variants.append(("copy", copy.copy(s)))
@@ -227,7 +255,8 @@ def arrangement_case(job):
                 diff = [x for x in fp if x not in fp0][:3]
                 out.append((f"{label}: components differ from the first build: {diff}", label))
                 continue
-            for xml, ok in PROBES + [(x, b if ver == "1.1" else a) for x, a, b in PROBES_BY_VERSION]:
+            for xml, ok in PROBES + [(x, b if ver == "1.1" else a) for x, a, b in PROBES_BY_VERSION] + \
+                    (PROBES11 if ver == "1.1" else []):
                 try:
                     v = sv.is_valid(xml)
                 except Exception as e:      # noqa: BLE001
